@@ -110,6 +110,8 @@ def attribute(job, ob):
     props = set(job["props"])
     is_gen = job["kind"] == "gen"
     out = set()
+    if kind == "retain":
+        return {"C20"}
     if kind == "og-inv":
         return props
     if kind == "frame":
@@ -128,7 +130,7 @@ def attribute(job, ob):
             return {"C17"}
         return {"C03"} | ({"C19"} & props)
     if kind in ("inv-init", "inv-step", "inv-declared"):
-        return props - {"C04", "C18"} or props
+        return props - {"C04", "C18", "C20"} | ({"C20"} if "tee[" in job["job"] else set()) or props
     if kind == "outcome-match":
         return ({"C01", "C02", "C19", "C16", "C10", "C13", "C14"} & props) or props
     if kind == "event-match" and "C19" in props:
